@@ -690,6 +690,10 @@ def rule_loop_progress(ctx):
                                         not any(x['k'] in ('call', 'mcall') and ctx.pv.local_fns(x.get('callee')) for x in walk(root[1])):
                                     progress = True
                         # map lookup walk (full_path_prefix): item = *id where id bound from parent map value
+                counter = _counter_loop(fn, lp)
+                if exits and counter:
+                    obs.append(ok('LOOP-PROGRESS', inst, 'bounded counter loop: `%s` is compared with a bound and incremented on every path that stays in the loop' % counter, lp.get('sp', '')))
+                    continue
                 if exits and (progress or iter_next):
                     obs.append(ok('LOOP-PROGRESS', inst, 'loop advances (%s) and has an exit' % ('sub-term reassignment' if progress else 'iterator next()'), lp.get('sp', '')))
                 elif exits and _parent_walk(ctx, fn, lp):
@@ -701,6 +705,98 @@ def rule_loop_progress(ctx):
     if n < 3:
         obs.append(bad('LOOP-PROGRESS', 'floor', 'anchor-missing: expected >= 3 loop/while constructs in generator code, found %d' % n))
     return obs
+
+
+def _counter_loop(fn, lp):
+    """`while i < bound { .. }` where every path through the body that does not leave the loop adds a positive literal to
+    the local `i` (also before each `continue`) and nothing else assigns `i`: returns the counter's name, else None"""
+    body = lp.get('body') or {}
+    top = None
+    for st in body.get('stmts', []):
+        top = st.get('e') if st.get('k') == 'stmt' else top
+    top = top or body.get('expr')
+    if not isinstance(top, dict) or top.get('k') != 'if' or top.get('else') is None:
+        return None
+    cond = top['cond']
+    while cond.get('k') == 'wrap':
+        cond = cond['e']
+    if cond.get('k') != 'binary' or cond.get('op') not in ('<', '<=', '!='):
+        return None
+    l = cond['l']
+    if not (l.get('k') == 'path' and (l.get('res') or {}).get('r') == 'local'):
+        return None
+    hid = l['res']['hid']
+    # the else branch leaves the loop
+    if not any(x['k'] == 'break' for x in walk(top['else'])):
+        return None
+
+    def is_incr(e):
+        if e.get('k') != 'assignop' or e.get('op') not in ('AddAssign', '+='):
+            return False
+        tl = e.get('l') or {}
+        r = e.get('r') or {}
+        return tl.get('k') == 'path' and (tl.get('res') or {}).get('hid') == hid and r.get('k') == 'lit' and isinstance(r['lit'].get('v'), int) and r['lit']['v'] > 0
+
+    def touches(e):
+        return any(x['k'] in ('assign', 'assignop') and (x.get('l') or {}).get('k') == 'path' and ((x.get('l') or {}).get('res') or {}).get('hid') == hid and not is_incr(x)
+                   for x in walk(e))
+    if touches(top['then']):
+        return None
+
+    def run(e, inc):
+        """-> set of outcomes {'exit', 'cont-ok', 'cont-bad', ('fall', inc)}"""
+        k = e.get('k')
+        if k in ('wrap',):
+            return run(e['e'], inc)
+        if k == 'block':
+            outs = set()
+            cur = {inc}
+            for st in e.get('stmts', []):
+                x = st.get('e') if st.get('k') == 'stmt' else st.get('init')
+                if x is None:
+                    continue
+                nxt = set()
+                for i_ in cur:
+                    for o in run(x, i_):
+                        if isinstance(o, tuple):
+                            nxt.add(o[1])
+                        else:
+                            outs.add(o)
+                cur = nxt
+                if not cur:
+                    break
+            if e.get('expr') is not None and cur:
+                nxt = set()
+                for i_ in cur:
+                    for o in run(e['expr'], i_):
+                        if isinstance(o, tuple):
+                            nxt.add(o[1])
+                        else:
+                            outs.add(o)
+                cur = nxt
+            return outs | {('fall', i_) for i_ in cur}
+        if is_incr(e):
+            return {('fall', True)}
+        if k == 'continue':
+            return {'cont-ok' if inc else 'cont-bad'}
+        if k in ('ret', 'break'):
+            return {'exit'}
+        if k == 'if':
+            outs = run(e['then'], inc)
+            outs |= run(e['else'], inc) if e.get('else') is not None else {('fall', inc)}
+            return outs
+        if k == 'match':
+            outs = set()
+            for a in e.get('arms', []):
+                outs |= run(a['body'], inc)
+            return outs or {('fall', inc)}
+        if k in ('loop', 'for', 'closure'):
+            return {('fall', inc)}
+        return {('fall', inc)}
+    outs = run(top['then'], False)
+    if 'cont-bad' in outs or ('fall', False) in outs:
+        return None
+    return fn.bind_names.get(hid, 'counter')
 
 
 def _parent_walk(ctx, fn, lp):
